@@ -86,6 +86,14 @@ def cases(tier, seed):
     yield {"k": "read", "files": lists[2], "nl": 128, "dl": 128, "gap": None, "blank": 128, "gapflag": 0xFF}
     for chunk in (1, 2, 100, 254):
         yield {"k": "read", "files": [ALPHA[2], ALPHA[6]], "nl": 128, "dl": 128, "gap": None, "blank": 128, "chunk": chunk}
+    # what the user sees: file_util.py <tape> --list on tapes from the tool's writer ("w") and from the independent writer ("r")
+    for n in (0, 1, 2):
+        for tup in itertools.product(range(len(ALPHA)), repeat=n):
+            for src in ("w", "r"):
+                yield {"k": "clist", "files": [ALPHA[i] for i in tup], "src": src}
+    for ft, dt in ((0, 0), (0, 0xFF), (1, 0), (1, 0xFF), (2, 0), (2, 0xFF), (3, 0), (3, 0xFF)):
+        for a, b in ((0, 0xFFFF), (0x0E00, 0x0E05), (0xFF, 0x100)):
+            yield {"k": "clist", "files": [C.spec("LISTED", ftype=ft, dtype=dt, load=a, exec_=b, n=7)], "src": "w"}
 
 
 def build_image(case):
@@ -105,6 +113,9 @@ def cell_of(case):
     fs = case["files"]
     if case["k"] == "hist":
         return "hist|{}|{}".format(case["ops"], ",".join(lenclass(s["n"]) for s in fs))
+    if case["k"] == "clist":
+        return "clist.{}|{}|{}".format(case["src"], ",".join(lenclass(s["n"]) for s in fs) or "none",
+                                       ",".join("t{}d{:02X}".format(s["type"], s["dtype"]) for s in fs))
     if case["k"] == "write":
         return "write|{}|{}|{}".format(",".join(lenclass(s["n"]) for s in fs) or "none",
                                        ",".join(s["pat"] for s in fs)[:40],
@@ -162,6 +173,34 @@ def check_case(case):
         if viol:
             res["viol"] = viol
         return res
+    if case["k"] == "clist":
+        import os
+        with common.scratch_dir(chdir=False) as d:
+            path = os.path.join(d, "t.cas")
+            try:
+                if case["src"] == "w":
+                    img = build_image(case)
+                else:
+                    img = tape.write([dict(name=s["name"], type=s["type"], dtype=s["dtype"], load=s["load"], exec=s["exec"],
+                                           data=C.pattern(s["n"], s["pat"])) for s in case["files"]])
+                open(path, "wb").write(img)
+                status, printed, out = C.cli_list(path)
+                want = case["files"]
+                if any(s["n"] == 0 for s in want):
+                    want = want[:[s["n"] for s in want].index(0)]      # KF-C06-1 (a file without data ends the listing) is judged by the API cases
+                if status != 0:
+                    bad("file_util --list failed: {}".format(str(status).split()[0]), "exit 0", "{} {}".format(status, out[-100:]))
+                else:
+                    dd = C.compare_cli(want, printed, "cas")
+                    if dd:
+                        bad(*dd)
+            except Exception as e:
+                t, w = common._raiser(e)
+                bad("listing raised {}@{}".format(t, w), "listing", repr(e)[:100])
+        res["state"] = "clist:{}".format(zlib.crc32(img))
+        if viol:
+            res["viol"] = viol
+        return res
     try:
         if case["k"] == "write":
             img = build_image(case)
@@ -198,7 +237,8 @@ def describe(tier):
     return {
         "alphabet": "file = (name, type 0-3, data type 00/FF, load, exec, length, content pattern); lengths {}; patterns {}; names {}; "
                     "addresses {}; files carrying a gap flag 00/FF/01; 14-symbol file alphabet for lists; add/list interleavings (4 patterns) on ONE "
-                    "container object over all 3-file lists of a 6-file alphabet; read side: leaders {} x {} , gaps none/0/1/128, chunk sizes".format(
+                    "container object over all 3-file lists of a 6-file alphabet; read side: leaders {} x {} , gaps none/0/1/128, chunk sizes; file_util --list (printed name, types, addresses, length) on every list "
+                    "of <= 2 files from both writers and on every type/data type".format(
                         "0..65535" if tier == "thorough" else LEN_BOUNDARY + ["3..39", 1275, 4000, 10000], PATS, NAMES,
                         "0..65535 each" if tier == "thorough" else ADDRS, "8 lengths", "8 lengths"),
         "bound": "single files over the full parameter sweeps; all lists of length <= 2 over 14 files, length 3 over " +
